@@ -264,6 +264,79 @@ theorem validate_silent_reloaded (o : Obj) (os : OStream) (r : SaveRes) (hdr : B
   rw [validate_congr r.obj o' hsecs hsegs]
   exact validate_silent_save o os r hdr hs hok hh hn h0 hnull0 hnw hnd sel hdom hsel
 
+/-- **Silence after `save`, nested PT_LOAD segments included** (`C04.save_layoutOk_nested`): as
+    `validate_silent_save`, but a PT_LOAD segment with file size > 0 may also be nested in another
+    segment (`selN`: at its turn its first member had been generated, so it starts at that member's
+    offset) as long as that first member occupies file space and carries the segment's virtual
+    address — the writer domain's "a nested segment starts at a member's address". -/
+theorem validate_silent_save_nested (o : Obj) (os : OStream) (r : SaveRes) (hdr : Bytes)
+    (hs : save o os = .ok r) (hok : r.ok = true) (hh : o.hdr = some hdr)
+    (hn : o.secs.length < 65536)
+    (h0 : ∀ (i : Nat) (s : SecBuf), o.secs[i]? = some s → s.Occ → s.index ≠ 0)
+    (hnull0 : ∀ s ∈ o.secs, s.stype = BitVec.ofNat 32 SHT_NULL → s.size = 0)
+    (hnw : layoutNW (preSave o) hdr = true) (hnd : (o.segs.map (·.index)).Nodup)
+    (sel selN : Nat → Bool) (hdom : layoutDomB false false sel (preSave o) hdr = true)
+    (hnest : layoutSelB segNestedStartB selN (preSave o) hdr = true)
+    (hsel : ∀ g ∈ r.obj.segs, g.stype = BitVec.ofNat 32 PT_LOAD → 0 < g.filesz.toNat →
+      sel g.index = true ∨
+      (selN g.index = true ∧ ∀ f sf, g.secs.head? = some f → r.obj.secs[f.toNat]? = some sf →
+        sf.Occ ∧ g.vaddr = sf.addr)) :
+    validate r.obj = [] :=
+  validate_silent r.obj (C04.save_layoutOk_nested o os r hdr hs hok hh hn h0 hnull0 hnw hnd sel selN hdom hnest hsel)
+
+/-- the reloaded form of the same (cf. `validate_silent_reloaded`) -/
+theorem validate_silent_reloaded_nested (o : Obj) (os : OStream) (r : SaveRes) (hdr : Bytes) (o' : Obj)
+    (hs : save o os = .ok r) (hok : r.ok = true) (hh : o.hdr = some hdr)
+    (hn : o.secs.length < 65536)
+    (h0 : ∀ (i : Nat) (s : SecBuf), o.secs[i]? = some s → s.Occ → s.index ≠ 0)
+    (hnull0 : ∀ s ∈ o.secs, s.stype = BitVec.ofNat 32 SHT_NULL → s.size = 0)
+    (hnw : layoutNW (preSave o) hdr = true) (hnd : (o.segs.map (·.index)).Nodup)
+    (sel selN : Nat → Bool) (hdom : layoutDomB false false sel (preSave o) hdr = true)
+    (hnest : layoutSelB segNestedStartB selN (preSave o) hdr = true)
+    (hsel : ∀ g ∈ r.obj.segs, g.stype = BitVec.ofNat 32 PT_LOAD → 0 < g.filesz.toNat →
+      sel g.index = true ∨
+      (selN g.index = true ∧ ∀ f sf, g.secs.head? = some f → r.obj.secs[f.toNat]? = some sf →
+        sf.Occ ∧ g.vaddr = sf.addr))
+    (hsecs : o'.secs.map vkey = r.obj.secs.map vkey) (hsegs : o'.segs.map vgkey = r.obj.segs.map vgkey) :
+    validate o' = [] := by
+  rw [validate_congr r.obj o' hsecs hsegs]
+  exact validate_silent_save_nested o os r hdr hs hok hh hn h0 hnull0 hnw hnd sel selN hdom hnest hsel
+
+/-- a PT_LOAD over `.text` and `.data` and a second PT_LOAD *nested* in it over `.data` alone
+    (its `p_vaddr` is `.data`'s explicit address) -/
+def exNestedLoad : Obj :=
+  { cls := .c64, enc := .lsb, hdr := some C04.exHdr,
+    secs := [ { SecBuf.fresh .c64 0 with index := 0 },
+              { SecBuf.fresh .c64 3 with index := 1, size := 17, addrAlign := 1 },
+              { SecBuf.fresh .c64 1 with index := 2, size := 24, addrAlign := 16, flags := 6,
+                                         addr := 0x401000, addrSet := true },
+              { SecBuf.fresh .c64 1 with index := 3, size := 10, addrAlign := 4, flags := 3,
+                                         addr := 0x401020, addrSet := true } ],
+    segs := [ { stype := 1, vaddr := 0x401000, align := 0x1000, secs := [2, 3], index := 0 },
+              { stype := 1, vaddr := 0x401020, align := 4, secs := [3], index := 1 } ] }
+
+/-- what the last hypothesis of `validate_silent_save_nested` asks of the saved `exNestedLoad` -/
+def exNestedLoadSel (o : Obj) : Bool :=
+  o.segs.all fun g =>
+    g.index == 0 ||
+      (g.index == 1 && match g.secs.head? with
+        | some f => (match o.secs[f.toNat]? with
+          | some sf => decide sf.Occ && g.vaddr == sf.addr
+          | none => true)
+        | none => true)
+
+/-- non-vacuity: `exNestedLoad` meets every hypothesis (segment 0 flat, segment 1 nested), its `save`
+    succeeds, and `validate` is indeed silent on the saved object -/
+example :
+    layoutNW (preSave exNestedLoad) C04.exHdr = true ∧ (exNestedLoad.segs.map (·.index)).Nodup ∧
+    layoutDomB false false (fun i => i == 0) (preSave exNestedLoad) C04.exHdr = true ∧
+    layoutSelB segNestedStartB (fun i => i == 1) (preSave exNestedLoad) C04.exHdr = true ∧
+    (match save exNestedLoad {} with
+     | .ok r => r.ok && exNestedLoadSel r.obj && (validate r.obj).isEmpty &&
+         r.obj.segs.map (fun g => (g.offset, g.filesz)) == [(0x1000, 42), (0x1020, 10)]
+     | .error _ => false) = true := by
+  refine ⟨by decide +kernel, by decide, by decide +kernel, by decide +kernel, by decide +kernel⟩
+
 /-- non-vacuity: `C04.exObj` (two members of a PT_LOAD, one with an explicit address, and two
     loose sections) meets every hypothesis, and its `save` succeeds -/
 example : ∀ r, save C04.exObj {} = .ok r → r.ok = true → validate r.obj = [] := by
